@@ -77,10 +77,15 @@ def gen_cases(rng, tier):
             G.collapse_texts(rng, cfg, p_bot=0.3, p_user=0.5)  # user texts / rewrites that repeat earlier ones
         if rng.random() < 0.25:
             G.random_opts(rng, cfg)  # 1.0: random per-call generation options
+        if rng.random() < 0.15:
+            G.inject_propagating(rng, cfg)  # one turn ends by a propagated failure (LLMCallException / cancellation), the conversation goes on
         cases.append(cfg)
     # user texts that REPEAT around a turn hidden by a fault after `$user_message` was set (see pipeline_cases.REPEAT_PATTERNS)
     cases.extend(G.repeat_cases(rng, tier, "in"))
     cases.extend(G.repeat_cases(rng, tier, "in", patterns=G.REFUSAL_REPEAT[:2]))
+    # calls that end by a failure which propagates out of `generate` mid-turn (LLMCallException, cancellation); the caller goes on from
+    # the last state it was given on the same LLMRails instance: every later user message passes all input rails before anything else
+    cases.extend(G.propagating_cases(rng, tier, "in"))
     # Colang 1.0 generation options per CALL: conversations (state API and messages) that mix calls switching the input rails off
     # with calls that pass no options - every call whose options (explicit or default) enable the input rails runs all of them
     cases.extend(G.options_cases(rng, tier, "in"))
@@ -166,7 +171,7 @@ def turn_oracle(case, tc, to, earlier=()):
     # ... ending at the first rail that does not let the message through (reject, or a failing rail - C03)
     stop = None
     for p, rid in enumerate(cfg_in):
-        if G.verdict_of(tc, "in", rid) in ("r", "f"):
+        if G.verdict_of(tc, "in", rid) in ("r", "f", "x"):  # "x": the rail's own LLM call failed - the rail has not approved the message
             stop = p
             break
     expected = len(cfg_in) if stop is None else stop + 1
@@ -190,6 +195,9 @@ def turn_oracle(case, tc, to, earlier=()):
                 return f"[reject-reply] rejected message: expected the InputRailException, got {rep}"
         elif not (rep["role"] == "assistant" and (G.reply_text(rep) == G.REFUSAL or (retr_failed and G.reply_text(rep) == G.INTERNAL_ERROR))):
             return f"[reject-reply] rejected message: expected the refusal, got {rep}"
+    if stop is not None and G.verdict_of(tc, "in", cfg_in[stop]) == "x" and gen:
+        # the rail's own LLM call failed: the rail has not let the message through, yet the call went on with it
+        return f"[llm-after-unapproved] the LLM call of input rail {cfg_in[stop]} failed (the message was not approved) but {steps[gen[0]][:2]} ran"
     # what each rail / later stage is shown
     cur = tc["user"]
     rewritten = False
@@ -235,6 +243,10 @@ def _final_user(case, tc):
 def oracle(case, obs):
     for k, (tc, to) in enumerate(zip(case["turns"], obs["turns"])):
         if to["raised"]:
+            if G.P.propagating(tc):
+                # the call ended by a failure that leaves `generate` by design (LLM provider down / cancelled request): nothing came
+                # back; the conversation goes on from the last state the caller was given - every later user message is gated again
+                continue
             return None  # `generate` raising is C03's statement; nothing of this turn can be observed
         msg = turn_oracle(case, tc, to, case["turns"][:k])
         if msg:
